@@ -577,6 +577,8 @@ def _exec_genfile(run, rd):
 
                 with run.guard(scope, "MTVRPGenerator.save_data"):
                     MTVRPGenerator.save_data(td_src, os.path.join(data_dir, rel))
+                if consumer == "load_data_simfile":  # save_data only takes a path: move the file into the SimFS
+                    fs.import_path(rel, os.path.join(data_dir, rel))
             elif consumer == "load_data_simfile":
                 f = fs.open(rel, "wb")
                 with run.guard(scope, "save_tensordict_to_npz (file object)"):
